@@ -30,6 +30,16 @@ def _select(case):
     win = set(_set(case['winners']))
     probs = []
     from ..stubs import ParamStub
+    if min([r for r in out if r] or [1]) >= 2 and sum(1 for r in out if r) >= 2:
+        # every fittable candidate fits badly, and the column is long (20000 rows): the best of them is still the answer
+        Xl = np.random.RandomState(7).permutation(norm.ppf((np.arange(20000) + 0.5) / 20000.0))
+        try:
+            inst = select_univariate(Xl, list(cands))
+            pos = [i + 1 for i, c in enumerate(cands) if type(inst) is c]
+            if not pos or pos[0] not in win:
+                probs.append(('selected-candidate-not-of-minimal-KS', 'select_univariate on 20000 rows chose position %s for outcomes %s (minimal: %s)' % (pos, out, sorted(win))))
+        except Exception as ex:
+            probs.append(('selection-raised-' + type(ex).__name__, '20000 rows, outcomes %s' % out))
     for how in ('select_univariate', 'Univariate.fit', 'Univariate.fit(instances)', 'copula(Univariate(candidates))', 'copula({col: Univariate(candidates)})',
                 'Univariate.fit(prototypes of one class)', 'select_univariate(prototypes of one class, positional)'):
         try:
@@ -287,6 +297,22 @@ def _dispatch(case):
             probs.append(('column-model-not-fitted', 'column %d' % i))
     if list(m.columns) != cols:
         probs.append(('columns-not-in-training-order', str(m.columns)))
+    if raises and form != 'default':
+        # the same copula fitted again to a table on which every configured distribution can be fitted: nothing falls back any more
+        df2 = df.copy()
+        for i in raises:
+            df2[cols[i - 1]] = df2[cols[i - 1]] - df2[cols[i - 1]].mean()
+        try:
+            m.fit(df2)
+            for i in range(1, n + 1):
+                u = m.univariates[i - 1]
+                exp2 = 'default' if (form == 'dict' and i not in named) else 'configured'
+                want = {'configured': PickyGaussian, 'default': Univariate}[exp2]
+                if type(u) is not want:
+                    probs.append(('column-modelled-by-wrong-distribution', 'second fit, column %d: %s instead of %s' % (i, type(u).__name__, want.__name__)))
+                    break
+        except Exception as ex:
+            probs.append(('fit-raised-' + type(ex).__name__, 'second fit of the same copula'))
     try:
         s = m.sample(5)
         if list(s.columns) != cols or len(s) != 5 or s.isna().any().any():
